@@ -490,6 +490,70 @@ std::vector<Sub> vh_subs() {
     subs.push_back(s);
   }
   // ------------------------------------------------------------ (e) the *_simple entry points (process-wide cached tables)
+  // ------------------------------------------------------------ (f) data living in the table's own built-in buffers
+  // new_*_precomp(m, num_buffers) appends num_buffers scratch vectors to the table ("contiguous to the constant tables"): a
+  // transform run inside buffer b must equal the same transform in a caller array, leave the table and the other buffers intact.
+  {
+    Sub s;
+    s.name = "precomp_buffers";
+    s.fields = {{"k", 0, 12}, {"layout", 0, 1}, {"dir", 0, 1}, {"cfg", 0, 1}, {"nbuf", 1, 3}, {"b", 0, 2}, {"fam", 0, NFAM - 1}, {"cexp", -40, 40},
+                {"idx", 0, 65535}, F_SEED};
+    s.run = [](const Vals& v, Ctx& c) {
+      Case cs;
+      cs.k = (unsigned)v[0], cs.layout = (int)v[1], cs.dir = (int)v[2], cs.fam = (int)v[6], cs.cexp = (int)v[7];
+      cs.idx = (uint64_t)v[8], cs.amode = 0, cs.seed = (uint64_t)v[9];
+      const uint64_t m = 1ull << cs.k;
+      const unsigned mask = v[3] ? spq::GENERIC : spq::FULL;
+      const uint32_t nbuf = (uint32_t)v[4], b = (uint32_t)(v[5] % v[4]);
+      const size_t B = 2 * m * sizeof(double);
+      Rng r(cs.seed);
+      std::vector<double> re, im;
+      gen_input(cs, r, re, im);
+      std::vector<double> in(2 * m), ext(2 * m);
+      pack(cs.layout, m, re, im, in.data());
+      ext = in;
+      void* t;
+      std::vector<double*> bufs(nbuf);
+      {
+        spq::MaskGuard g(mask);
+        if (cs.layout == REIM) t = cs.dir == FWD ? (void*)new_reim_fft_precomp((uint32_t)m, nbuf) : (void*)new_reim_ifft_precomp((uint32_t)m, nbuf);
+        else t = cs.dir == FWD ? (void*)new_cplx_fft_precomp((uint32_t)m, nbuf) : (void*)new_cplx_ifft_precomp((uint32_t)m, nbuf);
+      }
+      for (uint32_t i = 0; i < nbuf; ++i) {
+        if (cs.layout == REIM) bufs[i] = cs.dir == FWD ? reim_fft_precomp_get_buffer((REIM_FFT_PRECOMP*)t, i) : reim_ifft_precomp_get_buffer((REIM_IFFT_PRECOMP*)t, i);
+        else bufs[i] = (double*)(cs.dir == FWD ? cplx_fft_precomp_get_buffer((CPLX_FFT_PRECOMP*)t, i) : cplx_ifft_precomp_get_buffer((CPLX_IFFT_PRECOMP*)t, i));
+      }
+      auto run = [&](double* d) {
+        if (cs.layout == REIM) { if (cs.dir == FWD) reim_fft((REIM_FFT_PRECOMP*)t, d); else reim_ifft((REIM_IFFT_PRECOMP*)t, d); }
+        else { if (cs.dir == FWD) cplx_fft((CPLX_FFT_PRECOMP*)t, d); else cplx_ifft((CPLX_IFFT_PRECOMP*)t, d); }
+      };
+      std::string what = std::string(cs.layout == REIM ? "reim_" : "cplx_") + (cs.dir == FWD ? "fft" : "ifft") + " in precomp buffer " + std::to_string(b) + "/" +
+                         std::to_string(nbuf) + " (cfg=" + (mask ? "generic" : "full") + ")";
+      c.notef("%s m=%llu input=%s", what.c_str(), (unsigned long long)m, fam_name(cs.fam));
+      // 1. reference: transform in a caller array BEFORE any buffer is touched
+      run(ext.data());
+      // 2. fill every buffer with a pattern, the chosen one with the input; transform inside it
+      for (uint32_t i = 0; i < nbuf; ++i) for (uint64_t q = 0; q < 2 * m; ++q) bufs[i][q] = 1000.0 + i + q;
+      memcpy(bufs[b], in.data(), B);
+      run(bufs[b]);
+      bool ok = memcmp(bufs[b], ext.data(), B) == 0;
+      // 3. the same transform in a caller array afterwards must still give the same result (table intact)
+      std::vector<double> ext2 = in;
+      run(ext2.data());
+      bool ok2 = memcmp(ext2.data(), ext.data(), B) == 0;
+      bool others = true;
+      for (uint32_t i = 0; i < nbuf; ++i) if (i != b) for (uint64_t q = 0; q < 2 * m; ++q) if (bufs[i][q] != 1000.0 + i + q) others = false;
+      free(t);
+      c.nontrivial = m >= 2;
+      c.cls("entry:precomp_buffer");
+      c.cls(cs.layout == REIM ? "pbuf:reim" : "pbuf:cplx");
+      c.cls("pbuf:k" + std::to_string(cs.k));
+      if (!ok) return c.failf("%s m=%llu: result differs from the same transform in a caller-provided array", what.c_str(), (unsigned long long)m);
+      if (!ok2) return c.failf("%s m=%llu: after using the built-in buffer the table gives a different result (storing data in the buffer damaged the precomputed table)", what.c_str(), (unsigned long long)m);
+      if (!others) return c.failf("%s m=%llu: another built-in buffer was modified", what.c_str(), (unsigned long long)m);
+    };
+    subs.push_back(s);
+  }
   {
     Sub s;
     s.name = "simple";
